@@ -67,6 +67,8 @@ ProceedFails(s, e) ==
   \cup FClause("C09", "advancing failed with an error", e.res # "err")
   \cup FClause("C09", "flow landed in a state the documented state graph does not prescribe",
                e.res \notin {"none", "err"} => e.res \in Succ(s))
+  \cup FClause("C11", "with Expect: 100-continue and a body due, the flow must await 100 before the body is requested",
+               (s.st = "SendRequest" /\ s.shouldSend /\ s.await100 /\ e.res \notin {"none", "err"}) => e.res = "Await100")
   \cup FClause("C11", "the request body was requested although the server refused (non-100 response while awaiting 100)",
                (s.st = "Await100" /\ "Not100" \in s.facts) => e.res # "SendBody")
   \cup FClause("C11", "giving up waiting / a 100 response must lead to sending the body",
@@ -124,7 +126,8 @@ ResponseFails(s, e) ==
             IF s.await100
             THEN FClause("C11", "a late 100 response must be skipped: consumed exactly, no response returned, flow not ready",
                          e.res = "none" /\ e.n = e.mlen /\ ~e.ready)
-            ELSE {}
+            ELSE FClause("C09", "an interim 100 response must be consumed exactly and must not make the flow ready to advance",
+                         e.res \in {"none", "some"} /\ e.n = e.mlen /\ ~e.ready)
        [] OTHER ->
             FClause("C09", "a complete well-formed response head was not accepted",
                     IF ms = {ErrMode} THEN e.res = "err" ELSE (e.res = "some" /\ e.n = e.mlen /\ e.ready))
